@@ -207,7 +207,7 @@ def _solver_job(k):
     inconclusive = []
     of = ["AS_point_0.fuelburn", "AS_point_0.CL", "AS_point_0.wing_perf.failure"]
     wrt = ["alpha", "v", "wing.twist_cp"]
-    combos = [(nl, lin) for nl in ("NLBGS_aitken", "NLBGS", "Newton") for lin in ("Direct", "LBGS", "Krylov")]
+    combos = [(nl, lin) for nl in ("NLBGS_aitken", "NLBGS", "Newton") for lin in ("Direct", "LBGS", "Krylov")] + [("NLBGS_resid", "Direct")]
     for nl, lin in combos:
         try:
             if lin == "Direct":
@@ -257,6 +257,25 @@ def _solver_job(k):
     m.run()
     for kk, e in _cmp(_key_outputs(m), o0, 1e-8):
         bad.append(("path:previous_point", {"var": kk, "err": e}))
+    # ... the same with every nonlinear solver, the other design point having another stiffness
+    tname = "wing.thickness_cp" if s["fem"] == "tube" else "wing.spar_thickness_cp"
+    for nl in ("NLBGS", "Newton", "NLBGS_resid"):
+        if any(i[0] == nl and i[1] == "Direct" for i in inconclusive):
+            continue  # this solver does not converge on a fresh Problem either: nothing to compare
+        m = B.ASModel([s], flow=flow, nl=nl, rng=np.random.default_rng(seed() * 173 + k))
+        t0 = np.array(m.prob.get_val(tname), dtype=float)
+        try:
+            m.prob.set_val(tname, 1.5 * t0)
+            m.prob.set_val("alpha", flow["alpha"] + 2.0)
+            m.run()
+            m.prob.set_val(tname, t0)
+            m.prob.set_val("alpha", flow["alpha"])
+            m.run()
+        except om.AnalysisError as e:
+            bad.append(("path:previous_point:%s:not_converged" % nl, {"err": str(e)[:100]}))
+            continue
+        for kk, e in _cmp(_key_outputs(m), o0, 1e-8):
+            bad.append(("path:previous_point:%s" % nl, {"var": kk, "err": e}))
     return {"k": k, "bad": bad, "inconclusive": inconclusive, "case": {"fem": s["fem"], "ny": s["ny"], "shape": s["shape"]}}
 
 
